@@ -27,10 +27,50 @@ import (
 // NumToString/N) are not decided.
 
 type rgVal struct {
-	kind int // 0 int, 1 bool, 2 non-nil error, 3 nil, 4 opaque
-	n    int64
-	b    bool
-	elem bool // derived from an argument value (no arithmetic allowed on it in the prefix)
+	kind   int // 0 int, 1 bool, 2 non-nil error, 3 nil, 4 opaque, 5 struct
+	n      int64
+	b      bool
+	elem   bool          // derived from an argument value (no arithmetic allowed on it in the prefix)
+	fields map[int]rgVal // kind 5: a local struct that groups start/step/end
+}
+
+func (v rgVal) clone() rgVal {
+	if v.kind != 5 {
+		return v
+	}
+	c := rgVal{kind: 5, fields: map[int]rgVal{}}
+	for k, f := range v.fields {
+		c.fields[k] = f.clone()
+	}
+	return c
+}
+
+// rgZero: the zero value of a local of type t.
+func rgZero(t types.Type) rgVal {
+	switch u := t.Underlying().(type) {
+	case *types.Basic:
+		if u.Info()&types.IsBoolean != 0 {
+			return rgVal{kind: 1}
+		}
+		if u.Info()&types.IsNumeric != 0 {
+			return rgVal{}
+		}
+		return rgVal{kind: 4}
+	case *types.Struct:
+		v := rgVal{kind: 5, fields: map[int]rgVal{}}
+		for i := 0; i < u.NumFields(); i++ {
+			v.fields[i] = rgZero(u.Field(i).Type())
+		}
+		return v
+	case *types.Interface:
+		if _, isTP := t.(*types.TypeParam); isTP {
+			return rgVal{} // a Number
+		}
+		return rgVal{kind: 3}
+	case *types.Pointer, *types.Slice, *types.Map, *types.Signature, *types.Chan:
+		return rgVal{kind: 3}
+	}
+	return rgVal{kind: 4}
 }
 
 type rgOutcome struct {
@@ -50,6 +90,12 @@ func rangeEval(c rc, fn *ssa.Function, a []int64) (out rgOutcome, ok bool, why s
 	args := ssa.Value(fn.Params[0])
 	vals := map[ssa.Value]rgVal{}
 	ptr := map[ssa.Value]int64{}
+	cells := map[*ssa.Alloc]*rgVal{} // local variables that live in memory (structs, captured scalars)
+	type fieldPtr struct {
+		al  *ssa.Alloc
+		idx int
+	}
+	fptr := map[ssa.Value]fieldPtr{}
 	get := func(v ssa.Value) (rgVal, bool) {
 		if k, isC := v.(*ssa.Const); isC {
 			if k.Value == nil {
@@ -72,6 +118,57 @@ func rangeEval(c rc, fn *ssa.Function, a []int64) (out rgOutcome, ok bool, why s
 		r, ok := vals[v]
 		return r, ok
 	}
+	// getLazy also reads a local variable that lives in memory at a site that was not
+	// executed (the step operand inside the loop body), provided nothing in the
+	// function stores into that variable after the prefix (no store inside a loop)
+	var getLazy func(v ssa.Value) (rgVal, bool)
+	storedInLoop := func(al *ssa.Alloc) bool {
+		for _, rf := range *al.Referrers() {
+			switch x := rf.(type) {
+			case *ssa.Store:
+				if x.Addr == ssa.Value(al) && path.InCycle(x.Block()) {
+					return true
+				}
+			case *ssa.FieldAddr:
+				for _, r2 := range *x.Referrers() {
+					if st, ok := r2.(*ssa.Store); ok && st.Addr == ssa.Value(x) && path.InCycle(st.Block()) {
+						return true
+					}
+				}
+			}
+		}
+		return false
+	}
+	getLazy = func(v ssa.Value) (rgVal, bool) {
+		if r, ok := get(v); ok {
+			return r, true
+		}
+		switch x := v.(type) {
+		case *ssa.UnOp:
+			if x.Op != token.MUL {
+				return rgVal{}, false
+			}
+			if al, ok := x.X.(*ssa.Alloc); ok && cells[al] != nil && !storedInLoop(al) {
+				return cells[al].clone(), true
+			}
+			if fa, ok := x.X.(*ssa.FieldAddr); ok {
+				if al, ok := fa.X.(*ssa.Alloc); ok && cells[al] != nil && cells[al].kind == 5 && !storedInLoop(al) {
+					return cells[al].fields[fa.Field].clone(), true
+				}
+			}
+		case *ssa.Field:
+			if sv, ok := getLazy(x.X); ok && sv.kind == 5 {
+				return sv.fields[x.Field].clone(), true
+			}
+		case *ssa.Convert:
+			return getLazy(x.X)
+		case *ssa.ChangeType:
+			return getLazy(x.X)
+		case *ssa.MultiConvert:
+			return getLazy(x.X)
+		}
+		return rgVal{}, false
+	}
 	evalHelper := func(call *ssa.Call) (rgVal, bool, string) {
 		callee := path.StaticCallee(call)
 		if callee == nil || !c.p.InModule(callee) || len(callee.Params) != len(call.Call.Args) {
@@ -79,7 +176,7 @@ func rangeEval(c rc, fn *ssa.Function, a []int64) (out rgOutcome, ok bool, why s
 		}
 		env := od2Env{params: map[*ssa.Parameter]int64{}, inModule: c.p.InModule}
 		for i, av := range call.Call.Args {
-			v, ok := get(av)
+			v, ok := getLazy(av)
 			if !ok || v.kind != 0 {
 				return rgVal{}, false, "helper argument outside the accepted form"
 			}
@@ -94,96 +191,6 @@ func rangeEval(c rc, fn *ssa.Function, a []int64) (out rgOutcome, ok bool, why s
 	b := fn.Blocks[0]
 	var prev *ssa.BasicBlock
 	for steps := 0; steps < 400; steps++ {
-		if path.InCycle(b) {
-			// a loop header: describe the loop
-			iff := path.BlockIf(b)
-			if iff == nil {
-				return out, false, "loop header without a test"
-			}
-			// phis first (incoming from prev)
-			for _, in := range b.Instrs {
-				ph, isPhi := in.(*ssa.Phi)
-				if !isPhi {
-					continue
-				}
-				for i, p := range b.Preds {
-					if p == prev {
-						if v, ok := get(ph.Edges[i]); ok {
-							vals[ph] = v
-						}
-					}
-				}
-			}
-			cd, okc := path.CondOf(iff)
-			if !okc || cd.Neg {
-				return out, false, "loop test is not a plain comparison"
-			}
-			var iv *ssa.Phi
-			var bound ssa.Value
-			asc := false
-			isCounter := func(v ssa.Value) *ssa.Phi {
-				ph, ok := v.(*ssa.Phi)
-				if ok && ph.Block() == b {
-					return ph
-				}
-				return nil
-			}
-			switch {
-			case cd.Op == token.LSS && isCounter(cd.X) != nil:
-				iv, bound, asc = isCounter(cd.X), cd.Y, true
-			case cd.Op == token.GTR && isCounter(cd.Y) != nil:
-				iv, bound, asc = isCounter(cd.Y), cd.X, true
-			case cd.Op == token.LSS && isCounter(cd.Y) != nil:
-				iv, bound, asc = isCounter(cd.Y), cd.X, false
-			case cd.Op == token.GTR && isCounter(cd.X) != nil:
-				iv, bound, asc = isCounter(cd.X), cd.Y, false
-			default:
-				return out, false, "loop test is not a strict comparison of the counter with the end"
-			}
-			// the loop continues on the true edge
-			if !path.NaturalLoop(b)[b.Succs[0]] || path.NaturalLoop(b)[b.Succs[1]] {
-				return out, false, "loop does not continue exactly on the true edge of its test"
-			}
-			iv0, ok1 := get(iv)
-			bv, ok2 := get(bound)
-			if !ok1 || !ok2 || iv0.kind != 0 || bv.kind != 0 {
-				return out, false, "loop start or end not determined by the prefix"
-			}
-			out = rgOutcome{kind: "loop", asc: asc, init: iv0.n, bound: bv.n, header: b}
-			// the step: every back edge is counter +/- d
-			for i, p := range b.Preds {
-				if p == prev {
-					continue
-				}
-				bo, isB := iv.Edges[i].(*ssa.BinOp)
-				if !isB || bo.X != ssa.Value(iv) || (bo.Op != token.ADD && bo.Op != token.SUB) {
-					return out, false, "counter is not advanced by counter +/- d"
-				}
-				var dv rgVal
-				var okd bool
-				if v, ok := get(bo.Y); ok {
-					dv, okd = v, true
-				} else if call, isCall := bo.Y.(*ssa.Call); isCall {
-					v, ok, why := evalHelper(call)
-					if !ok {
-						return out, false, why
-					}
-					dv, okd = v, true
-				}
-				if !okd || dv.kind != 0 {
-					return out, false, "step not determined by the prefix"
-				}
-				d := dv.n
-				if bo.Op == token.SUB {
-					d = -d
-				}
-				if out.dKnown && out.d != d {
-					return out, false, "back edges advance the counter differently"
-				}
-				out.d, out.dKnown = d, true
-			}
-			return out, true, ""
-		}
 		advanced := false
 		for _, in := range b.Instrs {
 			switch x := in.(type) {
@@ -197,6 +204,34 @@ func rangeEval(c rc, fn *ssa.Function, a []int64) (out rgOutcome, ok bool, why s
 						}
 						vals[x] = v
 					}
+				}
+			case *ssa.Alloc:
+				z := rgZero(x.Type().(*types.Pointer).Elem())
+				cells[x] = &z
+			case *ssa.FieldAddr:
+				al, ok := x.X.(*ssa.Alloc)
+				if !ok || cells[al] == nil || cells[al].kind != 5 {
+					return out, false, "field of something other than a local struct"
+				}
+				fptr[x] = fieldPtr{al, x.Field}
+			case *ssa.Field:
+				sv, ok := get(x.X)
+				if !ok || sv.kind != 5 {
+					return out, false, "field of a value outside the accepted form"
+				}
+				vals[x] = sv.fields[x.Field].clone()
+			case *ssa.Store:
+				v, ok := get(x.Val)
+				if !ok {
+					return out, false, "stored value outside the accepted form"
+				}
+				if al, ok := x.Addr.(*ssa.Alloc); ok && cells[al] != nil {
+					c := v.clone()
+					cells[al] = &c
+				} else if fp, ok := fptr[x.Addr]; ok {
+					cells[fp.al].fields[fp.idx] = v.clone()
+				} else {
+					return out, false, "store outside the local variables"
 				}
 			case *ssa.IndexAddr:
 				if x.X != args {
@@ -213,6 +248,14 @@ func rangeEval(c rc, fn *ssa.Function, a []int64) (out rgOutcome, ok bool, why s
 			case *ssa.UnOp:
 				switch x.Op {
 				case token.MUL:
+					if al, isAl := x.X.(*ssa.Alloc); isAl && cells[al] != nil {
+						vals[x] = cells[al].clone()
+						continue
+					}
+					if fp, isF := fptr[x.X]; isF {
+						vals[x] = cells[fp.al].fields[fp.idx].clone()
+						continue
+					}
 					k, ok := ptr[x.X]
 					if !ok {
 						return out, false, "load outside the accepted form"
@@ -306,6 +349,79 @@ func rangeEval(c rc, fn *ssa.Function, a []int64) (out rgOutcome, ok bool, why s
 				}
 				vals[x] = v
 			case *ssa.If:
+				if path.InCycle(b) {
+					// the test of a loop: describe the loop and stop
+					iff := x
+					cd, okc := path.CondOf(iff)
+					if !okc || cd.Neg {
+						return out, false, "loop test is not a plain comparison"
+					}
+					var iv *ssa.Phi
+					var bound ssa.Value
+					asc := false
+					isCounter := func(v ssa.Value) *ssa.Phi {
+						ph, ok := v.(*ssa.Phi)
+						if ok && ph.Block() == b {
+							return ph
+						}
+						return nil
+					}
+					switch {
+					case cd.Op == token.LSS && isCounter(cd.X) != nil:
+						iv, bound, asc = isCounter(cd.X), cd.Y, true
+					case cd.Op == token.GTR && isCounter(cd.Y) != nil:
+						iv, bound, asc = isCounter(cd.Y), cd.X, true
+					case cd.Op == token.LSS && isCounter(cd.Y) != nil:
+						iv, bound, asc = isCounter(cd.Y), cd.X, false
+					case cd.Op == token.GTR && isCounter(cd.X) != nil:
+						iv, bound, asc = isCounter(cd.X), cd.Y, false
+					default:
+						return out, false, "loop test is not a strict comparison of the counter with the end"
+					}
+					// the loop continues on the true edge
+					if !path.NaturalLoop(b)[b.Succs[0]] || path.NaturalLoop(b)[b.Succs[1]] {
+						return out, false, "loop does not continue exactly on the true edge of its test"
+					}
+					iv0, ok1 := get(iv)
+					bv, ok2 := get(bound)
+					if !ok1 || !ok2 || iv0.kind != 0 || bv.kind != 0 {
+						return out, false, "loop start or end not determined by the prefix"
+					}
+					out = rgOutcome{kind: "loop", asc: asc, init: iv0.n, bound: bv.n, header: b}
+					// the step: every back edge is counter +/- d
+					for i, p := range b.Preds {
+						if p == prev {
+							continue
+						}
+						bo, isB := iv.Edges[i].(*ssa.BinOp)
+						if !isB || bo.X != ssa.Value(iv) || (bo.Op != token.ADD && bo.Op != token.SUB) {
+							return out, false, "counter is not advanced by counter +/- d"
+						}
+						var dv rgVal
+						var okd bool
+						if v, ok := getLazy(bo.Y); ok {
+							dv, okd = v, true
+						} else if call, isCall := bo.Y.(*ssa.Call); isCall {
+							v, ok, why := evalHelper(call)
+							if !ok {
+								return out, false, why
+							}
+							dv, okd = v, true
+						}
+						if !okd || dv.kind != 0 {
+							return out, false, "step not determined by the prefix"
+						}
+						d := dv.n
+						if bo.Op == token.SUB {
+							d = -d
+						}
+						if out.dKnown && out.d != d {
+							return out, false, "back edges advance the counter differently"
+						}
+						out.d, out.dKnown = d, true
+					}
+					return out, true, ""
+				}
 				cv, ok := get(x.Cond)
 				if !ok || cv.kind != 1 {
 					return out, false, "branch condition outside the accepted form"
@@ -479,7 +595,7 @@ func checkRange(c rc) {
 				// unconditional: no branch inside the loop guards it
 				decs := 0
 				for _, g := range path.Guards(fn, b) {
-					if g.If.Block() != h && loop[g.If.Block()] {
+					if g.Block() != h && loop[g.Block()] {
 						decs++
 					}
 				}
